@@ -37,7 +37,7 @@ QT_MODEL_DOC = [
     "containers never exceed Qt's hard limits (QString < 2^30 characters, QByteArray < 2^31 - 32 bytes)",
 ]
 
-CONTAINER_RE = re.compile(r"^(?:const\s+)?(?:class\s+)?(QString|QByteArray|QStringRef|QStringView|QLatin1String|QStringList|QList<.*>|QVector<.*>|QVarLengthArray<.*>|std::vector<.*>|std::(?:__cxx11::)?basic_string<.*>|std::string)\s*&?&?$")
+CONTAINER_RE = re.compile(r"^(?:const\s+)?(?:class\s+)?(QString|QByteArray|QStringRef|QStringView|QLatin1String|QStringList|QList<.*>|QVector<.*>|QStack<.*>|QQueue<.*>|QVarLengthArray<.*>|std::stack<.*>|std::queue<.*>|std::deque<.*>|std::vector<.*>|std::(?:__cxx11::)?basic_string<.*>|std::string)\s*&?&?$")
 INT_RE = re.compile(r"^(?:const\s+)?(?:unsigned\s+|signed\s+)?(?:int|long|long long|short|size_t|std::size_t|qsizetype|uint|quint\d+|qint\d+|qlonglong|qulonglong|unsigned|ptrdiff_t|qptrdiff|unsigned long|unsigned long long|unsigned int|unsigned short|ushort|ulong)\s*&?$")
 UNSIGNED_RE = re.compile(r"^(?:const\s+)?(?:unsigned|size_t|std::size_t|uint|quint\d+|qulonglong|ushort|ulong)")
 LEN_CALLS = ("size", "length", "count")
@@ -1355,12 +1355,12 @@ class Interp:
             else:
                 self.check_access(n, st, idx, ls, what)
             return None
-        if m in ("first", "last", "front", "back", "constFirst", "constLast", "takeFirst", "takeLast", "removeFirst", "removeLast", "pop_back", "pop_front") and not args:
+        if m in ("first", "last", "front", "back", "constFirst", "constLast", "takeFirst", "takeLast", "removeFirst", "removeLast", "pop_back", "pop_front", "pop", "top", "dequeue", "head") and not args:
             if ls is None:
                 self.ob("access", n, None, "%s: container is not a local, parameter or field" % what, "access|%s|%s" % (self.fn.name.split("::")[-1], what))
             else:
                 self.check_nonempty(n, st, ls, what)
-                if m.startswith(("take", "remove", "pop")):
+                if m.startswith(("take", "remove", "pop", "dequeue")):
                     st.each(lambda d: d.assign_shift(ls, -1))
             return None
         if m in ("indexOf", "lastIndexOf") and args:
@@ -1499,11 +1499,11 @@ class Interp:
                     else:
                         d.shrink(ls)
                 st.each(f)
-            elif m in ("append", "push_back", "prepend", "push_front") and len(args) == 1:
+            elif m in ("append", "push_back", "prepend", "push_front", "push", "enqueue") and len(args) == 1:
                 t = typ(args[0])
                 add = None
-                if re.match(r"^(const )?(QChar|char|QLatin1Char)\b", t) or not is_container_type(typ(obj)) or typ(obj).startswith(("QList", "QVector", "const QList")):
-                    if not is_container_type(t) or "QList" in typ(obj) or "QVector" in typ(obj):
+                if re.match(r"^(const )?(QChar|char|QLatin1Char)\b", t) or not is_container_type(typ(obj)) or typ(obj).startswith(("QList", "QVector", "const QList", "QStack", "QQueue", "std::stack", "std::queue", "std::deque")) or m in ("push", "enqueue"):
+                    if not is_container_type(t) or "QList" in typ(obj) or "QVector" in typ(obj) or m in ("push", "enqueue") or "QStack" in typ(obj) or "QQueue" in typ(obj):
                         add = Lin.const(1)
                 if add is None and is_container_type(t):
                     add = self.cval(args[0], st)
